@@ -82,6 +82,13 @@ func (p *dtPath) clone() *dtPath {
 	return n
 }
 
+// dtFrame: where a followed call returns to.
+type dtFrame struct {
+	k      func(p *dtPath, rets []string)
+	fd     *ast.FuncDecl
+	callee string
+}
+
 type dtEnum struct {
 	info     *types.Info
 	paths    []*dtPath
@@ -92,6 +99,14 @@ type dtEnum struct {
 	// inline: same-package functions a 'return f(...)' may be followed into
 	inline map[*types.Func]*ast.FuncDecl
 	depth  int
+	// callInline: functions of the package whose calls in statement position (f(..), x := f(..),
+	// if err := f(..); ..., return f(..)) are followed: the callee's paths become the caller's
+	callInline map[*types.Func]*ast.FuncDecl
+	frames     []*dtFrame
+	// exprInline: functions whose whole body is 'return <expr>': a call is printed as that expression
+	// with the parameters replaced by the arguments
+	exprInline map[*types.Func]*ast.FuncDecl
+	exprDepth  int
 	// getters: methods whose whole body is 'return <receiver>.<field>', printed as the field selection
 	getters map[*types.Func]string
 	// absVars: print variables that have no recorded definition as var<type> instead of by name
@@ -151,6 +166,18 @@ func (d *dtEnum) canon(p *dtPath, e ast.Expr) string {
 		ell := ""
 		if x.Ellipsis.IsValid() {
 			ell = "..."
+		}
+		if d.exprInline != nil && d.exprDepth < 3 {
+			if fn := calleeFunc(d.info, x); fn != nil {
+				if fd := d.exprInline[fn]; fd != nil {
+					if q := d.bindCall(p, fd, x); q != nil {
+						d.exprDepth++
+						out := d.canon(q, fd.Body.List[0].(*ast.ReturnStmt).Results[0])
+						d.exprDepth--
+						return out
+					}
+				}
+			}
 		}
 		if d.getters != nil {
 			if fn := calleeFunc(d.info, x); fn != nil {
@@ -268,6 +295,18 @@ func (d *dtEnum) cond(p *dtPath, e ast.Expr, k func(p *dtPath, v bool)) {
 		k(p, (s == "true") != neg)
 		return
 	}
+	// values whose nil-ness is known: the literal nil, and freshly constructed errors
+	if strings.HasSuffix(s, " == nil") {
+		v := strings.TrimSuffix(s, " == nil")
+		switch {
+		case v == "nil":
+			k(p, !neg)
+			return
+		case strings.HasPrefix(v, "fmt.Errorf(") || strings.HasPrefix(v, "errors.New(") || strings.HasPrefix(v, "internal/stackerr.NewStackErr(") || strings.HasPrefix(v, "&"):
+			k(p, neg)
+			return
+		}
+	}
 	if v, ok := p.atom(s); ok {
 		k(p, v != neg)
 		return
@@ -361,6 +400,39 @@ func (d *dtEnum) stmt(p *dtPath, s ast.Stmt, k func(p *dtPath)) {
 	case *ast.BlockStmt:
 		d.stmts(p, x.List, k)
 	case *ast.ReturnStmt:
+		if n := len(d.frames); n > 0 {
+			// return from a followed call: hand the values to the caller's continuation
+			f := d.frames[n-1]
+			var rets []string
+			if len(x.Results) == 0 && f.fd.Type.Results != nil {
+				for _, fl := range f.fd.Type.Results.List {
+					for _, nm := range fl.Names {
+						rets = append(rets, p.env[d.info.Defs[nm]])
+					}
+				}
+			}
+			if len(x.Results) == 1 {
+				if call, ok := ast.Unparen(x.Results[0]).(*ast.CallExpr); ok {
+					if t, ok := d.info.TypeOf(call).(*types.Tuple); ok && t.Len() > 1 {
+						d.noteCalls(p, call)
+						base := d.canon(p, call)
+						for i := 0; i < t.Len(); i++ {
+							rets = append(rets, fmt.Sprintf("%s#%d", base, i))
+						}
+					}
+				}
+			}
+			if rets == nil {
+				for _, r := range x.Results {
+					d.noteCalls(p, r)
+					rets = append(rets, d.canon(p, r))
+				}
+			}
+			d.frames = d.frames[:n-1]
+			f.k(p, rets)
+			d.frames = append(d.frames, f)
+			return
+		}
 		if len(x.Results) == 1 && d.inline != nil {
 			if call, ok := ast.Unparen(x.Results[0]).(*ast.CallExpr); ok {
 				if fn := calleeFunc(d.info, call); fn != nil {
@@ -390,6 +462,9 @@ func (d *dtEnum) stmt(p *dtPath, s ast.Stmt, k func(p *dtPath)) {
 		p.RetPos = x.Pos()
 		d.finish(p, "return")
 	case *ast.ExprStmt:
+		if call, ok := ast.Unparen(x.X).(*ast.CallExpr); ok && d.follow(p, call, func(q *dtPath, rets []string) { k(q) }) {
+			return
+		}
 		if d.noteCalls(p, x.X) {
 			name := "exit"
 			if isPanicCall(x.X) {
@@ -401,6 +476,26 @@ func (d *dtEnum) stmt(p *dtPath, s ast.Stmt, k func(p *dtPath)) {
 		}
 		k(p)
 	case *ast.AssignStmt:
+		if len(x.Rhs) == 1 && (x.Tok == token.ASSIGN || x.Tok == token.DEFINE) {
+			if call, ok := ast.Unparen(x.Rhs[0]).(*ast.CallExpr); ok {
+				if d.follow(p, call, func(q *dtPath, rets []string) {
+					for i, l := range x.Lhs {
+						val := "unknown"
+						if i < len(rets) {
+							val = rets[i]
+						}
+						if id, ok := l.(*ast.Ident); ok {
+							d.bind(q, id, val)
+						} else {
+							q.Steps = append(q.Steps, "store "+d.canon(q, l)+" = "+val)
+						}
+					}
+					k(q)
+				}) {
+					return
+				}
+			}
+		}
 		d.noteCalls(p, x)
 		switch {
 		case len(x.Lhs) == len(x.Rhs):
@@ -758,4 +853,86 @@ func findIndexLoop(info *types.Info, fd *ast.FuncDecl, pred func(bound string) b
 		return true
 	})
 	return
+}
+
+// bindCall returns a copy of p in which fd's receiver and parameters are bound to the canonical
+// arguments of call (nil when the call cannot be matched to the declaration).
+func (d *dtEnum) bindCall(p *dtPath, fd *ast.FuncDecl, call *ast.CallExpr) *dtPath {
+	q := p.clone()
+	if fd.Recv != nil && len(fd.Recv.List) == 1 {
+		sel, ok := call.Fun.(*ast.SelectorExpr)
+		if !ok {
+			return nil
+		}
+		if len(fd.Recv.List[0].Names) == 1 {
+			q.env[d.info.Defs[fd.Recv.List[0].Names[0]]] = d.canon(p, sel.X)
+		}
+	}
+	i := 0
+	for _, f := range fd.Type.Params.List {
+		if _, variadic := f.Type.(*ast.Ellipsis); variadic {
+			return nil
+		}
+		for _, n := range f.Names {
+			if i >= len(call.Args) {
+				return nil
+			}
+			q.env[d.info.Defs[n]] = d.canon(p, call.Args[i])
+			i++
+		}
+		if len(f.Names) == 0 {
+			i++
+		}
+	}
+	if i != len(call.Args) {
+		return nil
+	}
+	return q
+}
+
+// follow continues inside the callee when call is a call of a followable function of the package.
+func (d *dtEnum) follow(p *dtPath, call *ast.CallExpr, k func(q *dtPath, rets []string)) bool {
+	if d.callInline == nil || len(d.frames) >= 3 {
+		return false
+	}
+	fn := calleeFunc(d.info, call)
+	if fn == nil {
+		return false
+	}
+	fd := d.callInline[fn]
+	if fd == nil {
+		return false
+	}
+	for _, f := range d.frames {
+		if f.fd == fd {
+			return false // recursion
+		}
+	}
+	for _, a := range call.Args {
+		d.noteCalls(p, a)
+	}
+	q := d.bindCall(p, fd, call)
+	if q == nil {
+		return false
+	}
+	if fd.Type.Results != nil {
+		for _, fl := range fd.Type.Results.List {
+			for _, nm := range fl.Names {
+				q.env[d.info.Defs[nm]] = "zero"
+			}
+		}
+	}
+	q.Atoms, q.Steps, q.Calls = p.Atoms, p.Steps, p.Calls
+	q = func() *dtPath { c := q.clone(); return c }()
+	fr := &dtFrame{k: k, fd: fd}
+	d.frames = append(d.frames, fr)
+	d.stmts(q, fd.Body.List, func(r *dtPath) {
+		// fell off the end of the callee
+		n := len(d.frames)
+		d.frames = d.frames[:n-1]
+		k(r, nil)
+		d.frames = append(d.frames, fr)
+	})
+	d.frames = d.frames[:len(d.frames)-1]
+	return true
 }
